@@ -12,7 +12,7 @@ import corr  # noqa
 import efcommon as E  # noqa
 from lib import f32, f2h, h2f  # noqa
 
-MODULES = ["InovesaModel.Props.C06"]
+MODULES = ["InovesaModel.Props.C06", "InovesaModel.Props.Tie"]
 LEVEL = "proof"
 
 
@@ -39,6 +39,12 @@ def gen(rng, count, sizes, nmaxs):
     for k in range(count):
         n = rng.choice(sizes)
         nb, spacing, buckets, nmax = E.layout(rng, n, nmaxs=nmaxs)
+        if k % 8 == 3:
+            # a lone bunch in a bucket other than 0 (empty buckets behind it): its window does not start at cell 0
+            nb, spacing = 1, rng.choice([n, n + 3])
+            buckets = [rng.choice([1, 2])]
+            need = buckets[0] * spacing + n
+            nmax = rng.choice([m for m in nmaxs if m >= need] or [need + 1])
         z = E.impedance(rng, nmax, passive=rng.random() < 0.5)
         # make the upper half non-zero on purpose: it must not enter
         if rng.random() < 0.5:
